@@ -1,6 +1,29 @@
 (** C03 — every hash-table operation terminates, whatever the delete/insert churn.
-    (first stage: the former hanging histories evaluated on the model; theorems follow) *)
-From Algo.C02 Require Import Model.
+    Statements only; proofs live in C02/ (C03 shares the model of C02).
+
+    In the model every probe loop runs on fuel [m] (the capacity): an operation that would need more
+    than [m] probes returns [Hang], and [run] then ends with the output [RFail true].  [not_fail w]
+    says that [w] is neither a hang nor a panic. *)
+From Coq Require Import List NArith Permutation.
+From Algo.C02 Require Import Model Spec ProofsChain.
+Import ListNotations.
+
+(** Separate chaining (no probe loop: buckets are walked structurally): no operation of any history
+    fails, for every hash function, valid options and iteration oracle. *)
+Theorem C03_terminates_chain :
+  forall (K V : Type) (eqb : K -> K -> bool) (eqv : V -> V -> bool) (hash : K -> N) (minlf maxlf : lf),
+    (forall a b, eqb a b = true <-> a = b) ->
+    valid_chain minlf maxlf ->
+    forall (cap : nat), valid_cap_chain cap ->
+    forall (orc : nat -> nat -> list nat -> list nat), (forall i j l, Permutation (orc i j l) l) ->
+    forall ops : list (op K V),
+      Forall (not_fail K V) (run K V eqb eqv hash minlf maxlf orc Chain cap ops) /\
+      length (run K V eqb eqv hash minlf maxlf orc Chain cap ops) = length ops.
+Proof.
+  intros. split.
+  - eapply outs_match_no_fail. apply chain_refines; eauto.
+  - erewrite outs_match_length by (apply chain_refines; eauto). apply run_spec_length.
+Qed.
 
 (** D03's history on the model of the repaired code: [Put i; Delete i] for 40 fresh keys, then a Put
     and lookups of an absent key: no operation returns [Hang]. *)
@@ -22,3 +45,5 @@ Example C03_example_churn :
   /\ map (fun kd => churn_hist kd (fun _ => 0%N) 40) [Chain; Linear; Quadratic; Double]
   = repeat (Ok (1, None)) 4.
 Proof. vm_compute. split; reflexivity. Qed.
+
+Print Assumptions C03_terminates_chain.
